@@ -49,6 +49,7 @@ pub fn run(ctx: &mut Ctx) {
     let crit = crit_times();
     let crit_s = crit_seconds();
     let total = cal.total_days() as u64;
+    let seed = ctx.seed;
     ctx.rule("a case is one (value, unit, type) triple at a distinct sweep index; non-trivial = truncation moves the value to an earlier boundary or must fail");
     ctx.assume("reference: one independent predicate per unit ('does such a unit start on this day?') evaluated by the day-counting walker; truncation = latest boundary <= input");
     ctx.bound("critical_times", json!(crit.len()));
@@ -88,12 +89,13 @@ pub fn run(ctx: &mut Ctx) {
 
     // Timestamp / OracleDate: all dates x critical times x 12 units
     let (crit, crit_s) = (&crit, &crit_s);
-    let r = ctx.sweep("timestamp_oracle_all_units", "all dates x critical times x 12 units on Timestamp; x whole-second critical times on OracleDate", total, 512, |range, acc| {
+    let r = ctx.sweep("timestamp_oracle_all_units", "all dates x (critical times + 2 seed-derived times of day per date) x 12 units on Timestamp; x whole-second critical times on OracleDate", total, 512, |range, acc| {
         let mut c = cal.at(cal.min_day + range.start as i32);
         for idx in range {
             let dr = day_ref(w, c.n);
             let date = Date::try_from_days(c.n).unwrap();
-            for &t in crit.iter() {
+            let extra = [(splitmix(seed ^ (c.n as u64).wrapping_mul(0xA24B)) % US_DAY as u64) as i64, (splitmix(seed ^ (c.n as u64).wrapping_mul(0x51ED) ^ 7) % US_DAY as u64) as i64];
+            for &t in crit.iter().chain(extra.iter()) {
                 let ts = Timestamp::new(date, Time::try_from_usecs(t).unwrap());
                 for u in 0..12 {
                     acc.states += 1;
@@ -122,14 +124,14 @@ pub fn run(ctx: &mut Ctx) {
     let days = selected_days(w);
     ctx.bound("every_second_days", json!(days.iter().map(|&n| { let c = cal.at(n); format!("{:04}-{:02}-{:02}", c.y, c.m, c.d) }).collect::<Vec<_>>()));
     let days = &days;
-    ctx.sweep("every_second_of_selected_days", "every second (x µs {0, 999999}) of the selected days x 12 units on Timestamp, whole seconds on OracleDate", days.len() as u64 * 86_400, 4096, |range, acc| {
+    ctx.sweep("every_second_of_selected_days", "every second (x µs {0, 1, 123456, 654321, 999999}) of the selected days x 12 units on Timestamp, whole seconds on OracleDate", days.len() as u64 * 86_400, 4096, |range, acc| {
         for idx in range {
             let n = days[(idx / 86_400) as usize];
             let s = (idx % 86_400) as i64;
             let c = cal.at(n);
             let dr = day_ref(w, n);
             let date = Date::try_from_days(n).unwrap();
-            for us in [0i64, 999_999] {
+            for us in [0i64, 1, 123_456, 654_321, 999_999] {
                 let t = s * US_SEC + us;
                 let ts = Timestamp::new(date, Time::try_from_usecs(t).unwrap());
                 for u in 0..12 {
